@@ -312,10 +312,14 @@ class NetImpl:
         if k == "nnbrs":
             v = [self.idx[a] for a in g.get_neighbors(int(w[1]), w[2] == "1", int(w[3]))]
             return sp(" ".join(map(str, v))), v
-        if k == "nclc":
+        if k in ("nclc", "niclc"):
             vs = [int(x) for x in w[2:]]
             assert len(vs) == int(w[1])
-            v = [self.idx[a] for a in g.get_cell_list_contents(vs)]
+            it = g.get_cell_list_contents(vs) if k == "nclc" else list(g.iter_cell_list_contents(vs))
+            v = [self.idx[a] for a in it]
+            return sp(" ".join(map(str, v))), v
+        if k == "nallc":
+            v = [self.idx[a] for a in g.get_all_cell_contents()]
             return sp(" ".join(map(str, v))), v
         if k == "nagents":
             v = [self.idx[a] for a in g.agents]
@@ -572,6 +576,66 @@ def gen_c08(R, tier, rejecting=False):
     return b.scenario({"oq": True} if oq else None)
 
 
+def random_graph(R, n):
+    p = R.choice([0.0, 0.15, 0.3, 0.5, 1.0])
+    cand = [(a, c) for a in range(n) for c in range(a + 1, n) if R.random() < p]
+    R.shuffle(cand)
+    return [(a, c) if R.random() < 0.5 else (c, a) for a, c in cand]
+
+
+def gen_c08_net(R, tier, rejecting=False):
+    """NetworkGrid as a space: histories of place / move / remove (existing and missing nodes, placed and
+    unplaced agents) interleaved with the reads; a dump (pos, node lists) follows every mutating call"""
+    n = R.randint(1, 7)
+    edges = random_graph(R, n)
+    nag = R.randint(1, 6)
+    b = Builder(f"scenario net {n} {nag} {len(edges)} " + " ".join(f"{a} {c}" for a, c in edges))
+    impl = b.impl
+    node = lambda: R.randrange(n)  # noqa: E731
+    missing = lambda: n + R.randrange(3)  # noqa: E731
+    p_bad = 0.45 if rejecting else 0.12
+    if rejecting:
+        for a in range(nag):
+            if R.random() < 0.7:
+                b.add(f"nplace {a} {node()}")
+        b.add("ndump")
+    for _ in range(R.randint(5, 30 if tier == "quick" else 45)):
+        placed = [i for i, a in enumerate(impl.agents) if a.pos is not None]
+        unplaced = [i for i, a in enumerate(impl.agents) if a.pos is None]
+        k = R.random()
+        mut = True
+        if k < 0.2 and unplaced:
+            b.add(f"nplace {R.choice(unplaced)} {missing() if R.random() < p_bad else node()}")
+        elif k < 0.5 and (placed or unplaced):
+            a = R.choice(unplaced) if unplaced and (not placed or R.random() < p_bad / 2) else R.choice(placed)
+            if placed and a in placed and R.random() < 0.15:
+                v = impl.agents[a].pos  # onto its own node: goes to the end of the list
+            else:
+                v = missing() if R.random() < p_bad else node()
+            b.add(f"nmove {a} {v}")
+        elif k < 0.62 and (placed or unplaced):
+            a = R.choice(unplaced) if unplaced and (not placed or R.random() < p_bad) else R.choice(placed)
+            b.add(f"nremove {a}")
+        else:
+            mut = False
+            j = R.random()
+            if j < 0.2:
+                b.add(f"nisempty {missing() if R.random() < 0.15 else node()}")
+            elif j < 0.45:
+                vs = [missing() if R.random() < 0.06 else node() for _ in range(R.randrange(5))]
+                b.add(f"{R.choice(['nclc', 'niclc'])} {len(vs)} " + " ".join(map(str, vs)))
+            elif j < 0.6:
+                b.add("nallc")
+            elif j < 0.75:
+                b.add("nagents")
+            else:
+                r = R.choice([0, 1, 1, 1, 2, 2, 3, n])
+                b.add(f"{R.choice(['nnbrs', 'nnbrs', 'nnbhd'])} {node()} {int(R.random() < 0.5)} {r}")
+        if mut:
+            b.add("ndump")
+    return b.scenario()
+
+
 RADII = [1, 1, 1, 2, 2, 3, 4, 7]
 
 
@@ -629,10 +693,7 @@ def gen_c09_grid(R, tier):
 
 def gen_c09_net(R, tier):
     n = R.randint(1, 8)
-    p = R.choice([0.0, 0.15, 0.3, 0.5, 1.0])
-    cand = [(a, c) for a in range(n) for c in range(a + 1, n) if R.random() < p]
-    R.shuffle(cand)
-    edges = [(a, c) if R.random() < 0.5 else (c, a) for a, c in cand]
+    edges = random_graph(R, n)
     nag = R.randint(0, 6)
     b = Builder(f"scenario net {n} {nag} {len(edges)} " + " ".join(f"{a} {c}" for a, c in edges))
     impl = b.impl
@@ -731,9 +792,99 @@ def check_views(H, s, bad, where):
             break
 
 
+def check_views_net(H, s, bad, where):
+    """pos / node-list agreement on one NetworkGrid snapshot"""
+    where_is = {}
+    for v, l in s["cells"].items():
+        if len(set(l)) != len(l):
+            bad.append(f"net-pos-content: {where}: node {v} lists an agent twice: {l}")
+        for a in l:
+            where_is.setdefault(a, []).append(int(v))
+    for a, p in enumerate(s["pos"]):
+        occ = where_is.get(a, [])
+        if p is None:
+            if occ:
+                bad.append(f"net-pos-content: {where}: agent {a} has pos None but is in node(s) {occ}")
+        elif occ != [p]:
+            bad.append(f"net-pos-content: {where}: agent {a} has pos {p} but is in node(s) {occ}")
+
+
+def oracle_c08_net(sc, obs, H):
+    """NetworkGrid as a space: the C08-style clauses evaluated on the implementation's trace"""
+    tr = sc.meta.get("trace") or []
+    bad = []
+    n = H["n"]
+    for i, e in enumerate(tr):
+        op, res, B, A = e["op"], e["res"], trace_before(tr, i), e["after"]
+        k = op[0]
+        where = f"line {i + 1} ({' '.join(op[:4])})"
+        if i == 0:
+            check_views_net(H, B, bad, "initial state")
+        check_views_net(H, A, bad, where)
+        Bc = {int(v): list(l) for v, l in B["cells"].items()}
+        Ac = {int(v): list(l) for v, l in A["cells"].items()}
+        same = (list(A["pos"]), Ac) == (list(B["pos"]), Bc)
+        mutator = k in ("nplace", "nremove", "nmove")
+        if res.startswith("err") and not same:
+            bad.append(f"net-reject-unchanged: {where}: raised {res} but the observable state changed")
+        if not mutator and not same:
+            bad.append(f"net-read-pure: {where}: a read changed the observable state")
+        if k == "nisempty":
+            v = int(op[1])
+            if v < n:
+                if not res.startswith("ok") or e["val"] != (not Bc[v]):
+                    bad.append(f"net-isempty: {where}: gave {res}, node holds {Bc[v]}")
+            elif res != "err Key":
+                bad.append(f"net-isempty: {where}: node {v} does not exist, gave {res}")
+        elif k in ("nclc", "niclc"):
+            vs = [int(x) for x in op[2:]]
+            if all(v < n for v in vs):
+                want = [a for v in vs for a in Bc[v]]
+                if not res.startswith("ok") or e["val"] != want:
+                    bad.append(f"net-clc: {where}: gave {res}, agents on those nodes are {want}")
+            elif res != "err Key":
+                bad.append(f"net-clc: {where}: a listed node does not exist, gave {res}")
+        elif k in ("nallc", "nagents"):
+            want = [a for v in range(n) for a in Bc[v]]
+            if not res.startswith("ok") or e["val"] != want:
+                bad.append(f"net-all: {where}: gave {res}, the node lists hold {want}")
+        if not mutator:
+            continue
+        a = int(op[1])
+        pa = B["pos"][a]
+        if any(A["pos"][j] != B["pos"][j] for j in range(H["nag"]) if j != a):
+            bad.append(f"net-frame: {where}: the position of an agent not named in the call changed")
+        touched = {pa} | ({int(op[2])} if k != "nremove" else set())
+        if any(Ac[v] != Bc[v] for v in range(n) if v not in touched):
+            bad.append(f"net-frame: {where}: the list of a node not involved in the call changed")
+        if k == "nplace" and pa is None:
+            v = int(op[2])
+            if v >= n:
+                if res != "err Key":
+                    bad.append(f"net-place: {where}: node {v} does not exist, gave {res}")
+            elif res != "ok" or A["pos"][a] != v or Ac[v] != Bc[v] + [a]:
+                bad.append(f"net-place: {where}: gave {res}, pos {A['pos'][a]}, node list {Ac[v]}")
+        elif k == "nremove":
+            if pa is None:
+                if res != "err Key":
+                    bad.append(f"net-remove: {where}: agent not in the space, gave {res}")
+            elif res != "ok" or A["pos"][a] is not None or Ac[pa] != [x for x in Bc[pa] if x != a]:
+                bad.append(f"net-remove: {where}: gave {res}, pos {A['pos'][a]}, node list {Ac[pa]}")
+        elif k == "nmove":
+            v = int(op[2])
+            if v >= n or pa is None:
+                if res != "err Key":
+                    bad.append(f"net-move-reject: {where}: {'node does not exist' if v >= n else 'agent not in the space'}, gave {res}")
+            elif res != "ok" or A["pos"][a] != v or Ac[v] != [x for x in Bc[v] if x != a] + [a] or (pa != v and Ac[pa] != [x for x in Bc[pa] if x != a]):
+                bad.append(f"net-move: {where}: gave {res}, pos {A['pos'][a]}, target list {Ac[v]}, old list {Ac[pa]}")
+    return bad
+
+
 def oracle_c08(sc, obs):
     H = _hdr(sc)
-    if H["type"] != "grid" or sc.meta.get("oq"):
+    if H["type"] == "net":
+        return oracle_c08_net(sc, obs, H)
+    if sc.meta.get("oq"):
         return []
     tr = sc.meta.get("trace") or []
     bad = []
